@@ -21,7 +21,13 @@ import (
 )
 
 func init() {
-	register("C02", func(a []string) { runTx("C02", a) })
+	register("C02", func(a []string) {
+		if c02dumbWanted(a) { // second stream of C02: the toy models dumb / modumb (c02dumb.go)
+			c02dumbMain(a)
+			return
+		}
+		runTx("C02", a)
+	})
 	register("C10", func(a []string) { runTx("C10", a) })
 	register("C11", func(a []string) { runTx("C11", a) })
 }
